@@ -51,7 +51,7 @@ def check(run):
     lines, st, dt = vlib.tlc(run, "MC_Markers", cfg, workers=8, timeout=900)
     vecs = vlib.tagged(lines, "VEC")
     rnd = random.Random(run.seed)
-    jobs = [dict(v, k="cmp") for v in vecs] + seeded(rnd, 300 if quick else 12000)
+    jobs = [dict(v, k="cmp") for v in vecs] + seeded(rnd, 300 if quick else 40000)
     nsh = 8
     shards = [jobs[i::nsh] for i in range(nsh)]
     def one(k_sh):
